@@ -583,8 +583,8 @@ impl<'a, F: Field> SubAssign<&'a SparsePolynomial<F>> for DensePolynomial<F> {
                 }
             }
             self.coeffs.extend(upper_coeffs);
-            self.truncate_leading_zeros();
         }
+        self.truncate_leading_zeros();
     }
 }
 
